@@ -14,8 +14,11 @@ pub enum Def {
     RangeArr(u32, u32, Vec<Vec<u16>>),
 }
 
+fn base(code_len: usize) -> u32 { match code_len { 1 => 0x10, 2 => 0x0110, 3 => 0x81_40A0, _ => 0x8EA1_A1A0 } }
+fn code_bytes(code: u32, code_len: usize) -> Vec<u8> { code.to_be_bytes()[4 - code_len..].to_vec() }
+
 fn pool(code_len: usize) -> Vec<Def> {
-    let b = if code_len == 1 { 0x10 } else { 0x0110 };
+    let b = base(code_len);
     vec![
         Def::Char(b + 2, vec![0x0041]),
         Def::Char(b + 3, vec![0xD83D, 0xDE00]),                       // surrogate pair -> one character
@@ -54,7 +57,7 @@ fn render(defs: &[Def], code_len: usize, sectioning: u32, style: usize) -> Vec<u
     let nl = if style == 0 { "\n" } else { "\r\n" };
     let sp = if style == 0 { " " } else { "  " };
     let mut s = String::new();
-    s.push_str(&format!("/CIDInit /ProcSet findresource begin{nl}12 dict begin{nl}begincmap{nl}/CIDSystemInfo << /Registry (Adobe) /Ordering (UCS) /Supplement 0 >> def{nl}/CMapName /Adobe-Identity-UCS def{nl}/CMapType 2 def{nl}1 begincodespacerange{nl}<{}>{sp}<{}>{nl}endcodespacerange{nl}", hexc(0, code_len), hexc(if code_len == 1 { 0xFF } else { 0xFFFF }, code_len)));
+    s.push_str(&format!("/CIDInit /ProcSet findresource begin{nl}12 dict begin{nl}begincmap{nl}/CIDSystemInfo << /Registry (Adobe) /Ordering (UCS) /Supplement 0 >> def{nl}/CMapName /Adobe-Identity-UCS def{nl}/CMapType 2 def{nl}1 begincodespacerange{nl}<{}>{sp}<{}>{nl}endcodespacerange{nl}", hexc(0, code_len), hexc((0xFFFF_FFFFu64 >> (32 - 8 * code_len)) as u32, code_len)));
     let kind = |d: &Def| matches!(d, Def::Char(..));
     let mut i = 0;
     while i < defs.len() {
@@ -87,13 +90,13 @@ fn decode(cmap: &[u8], bytes: &[u8]) -> Result<String, String> {
 
 pub fn check(defs: &[Def], code_len: usize, sectioning: u32, style: usize) -> Result<(), (String, String)> {
     let cmap = render(defs, code_len, sectioning, style);
-    let base: u32 = if code_len == 1 { 0x10 } else { 0x0110 };
+    let base: u32 = base(code_len);
     let mut all_bytes = vec![];
     let mut all_expected = String::new();
     for code in base..base + 6 {
         let Some(units) = lookup(defs, code) else { continue };
         let want = String::from_utf16(&units).map_err(|_| ("oracle".to_string(), "pool produced an invalid UTF-16 target".to_string()))?;
-        let bytes: Vec<u8> = if code_len == 1 { vec![code as u8] } else { vec![(code >> 8) as u8, code as u8] };
+        let bytes: Vec<u8> = code_bytes(code, code_len);
         match guarded(std::panic::AssertUnwindSafe(|| decode(&cmap, &bytes))) {
             Err(p) => return Err(("no-panic".into(), p)),
             Ok(Err(e)) => return Err(("decodes".into(), format!("code <{}>: {}", hexc(code, code_len), e))),
@@ -122,10 +125,10 @@ fn defs_from(v: &Value) -> (Vec<Def>, usize, u32, usize) {
 }
 
 pub fn run(thorough: bool) -> Report {
-    let mut rep = Report::new("code lengths {1, 2} x every sequence of 1..3 definitions (with repetition, order significant) over a pool of 12 (bfchar single / surrogate pair / two units; bfrange with single unit, multi-unit, astral and array targets; overlapping, nested, adjacent and coalescable ranges) x every sectioning of the sequence x 2 white-space/EOL styles; every mapped code alone and all mapped codes in one string", true);
+    let mut rep = Report::new("code lengths {1, 2, 3, 4} (3- and 4-byte codes with non-zero leading bytes) x every sequence of 1..3 definitions (with repetition, order significant) over a pool of 12 (bfchar single / surrogate pair / two units; bfrange with single unit, multi-unit, astral and array targets; overlapping, nested, adjacent and coalescable ranges) x every sectioning of the sequence x 2 white-space/EOL styles; every mapped code alone and all mapped codes in one string", true);
     let _ = thorough;
     let mut cases = vec![];
-    for code_len in [2usize, 1] {
+    for code_len in [2usize, 1, 3, 4] {
         let p = pool(code_len);
         for a in 0..p.len() { cases.push((vec![p[a].clone()], code_len)); for b in 0..p.len() { cases.push((vec![p[a].clone(), p[b].clone()], code_len)); for c in 0..p.len() { cases.push((vec![p[a].clone(), p[b].clone(), p[c].clone()], code_len)); } } }
     }
